@@ -119,7 +119,7 @@ def standin_out_equals_convert(tier, seed):
             rc, so, se = R.run_ucg(['build'] + (['conv%d.ucg' % i for i in range(len(cases))] if S is None else []) + knames, work, timeout=600)
             after = tree(work)
             if S is None:
-                stray = sorted(x for x in after - before if x.startswith('conv') and not x.endswith('.json'))
+                stray = sorted(x for x in after - before if x.startswith('conv') and x not in ['conv%d.json' % i for i in range(len(cases))])
                 if stray:
                     return viol(name, bound, 1, '`out json` in conv*.ucg wrote %s instead of conv*.json' % stray[:3], source=prog(cases[0][0], cases[0][1], True), expected='conv0.json',
                                 observed=stray[:10], how='`ucg build conv0.ucg ...`; directory listing')
@@ -218,10 +218,10 @@ def standin_artifact_name(tier, seed):
             if mi == 0:
                 # (the `convert` programs ride along in the first invocation)
                 rcs = [R.run_ucg(['build'] + ['../conv_%s.ucg' % f for f in good] + [('./' + rel if rel.startswith('-') else rel) for _, _, rel in srcs], d, timeout=600)[0]]
-                stray = sorted(x for x in os.listdir(work) if x.startswith('conv_') and not x.endswith(('.json', '.ucg')))
+                stray = sorted(x for x in tree(work) if 'conv_' in x and x not in ['conv_%s.json' % f for f in good] + ['conv_%s.ucg' % f for f in good])
                 if stray:
-                    return viol(name, bound, 1, '`out json` in conv_*.ucg wrote %s instead of conv_*.json' % stray[:3], source='file conv_json.ucg: out json {c = convert json %s};' % good['json'],
-                                expected='conv_json.json', observed=stray[:10], how='`ucg build ../conv_json.ucg ...`; directory listing')
+                    return viol(name, bound, 1, '`out json` in ../conv_*.ucg wrote %s instead of conv_*.json next to the sources' % stray[:3], source='file conv_json.ucg: out json {c = convert json %s};' % good['json'],
+                                expected='conv_json.json next to conv_json.ucg', observed=stray[:10], how='`ucg build ../conv_json.ucg ...` from the sub-directory m0; directory listing')
                 for f in good:
                     p = os.path.join(work, 'conv_%s.json' % f)
                     if not os.path.exists(p):
